@@ -466,6 +466,9 @@ func c07CssSafeAdjacent(prev, next c07CssTok) bool {
 		// "\r" ending the bad string followed by "\n" is still two tokens; always safe
 		return true
 	case css.IdentToken, css.AtKeywordToken, css.HashToken, css.DimensionToken, css.CustomPropertyNameToken:
+		if string(prev.text) == "--" && n0 == '>' {
+			return false // "-->" is CDC
+		}
 		return !(c07IsIdentCharB(n0) || n0 == '\\' || n0 == '(' || n0 == '+')
 	case css.NumberToken:
 		return !(c07IsIdentCharB(n0) || n0 == '\\' || n0 == '%' || n0 == '.')
